@@ -476,6 +476,15 @@ def replay_report(mm, gname, c, goal):
     m.register_load(ld, 0)
     m.register_load(ld, n - 1)
     m.power = float(c['P'])
+    # as in the symbolic run: the report writers were used once before on this object for another solution
+    cur2 = m.current
+    m.current = np.array([complex(0.3 - 0.1 * k, 0.2 + 0.15 * k) for k in range(n)])
+    for wr in (m.wires_as_mininec, m.sources_as_mininec, m.loads_as_mininec, m.source_data_as_mininec, m.currents_as_mininec):
+        try:
+            wr()
+        except ZeroDivisionError:
+            pass
+    m.current = cur2
 
     def ok(read, val):
         return abs(read - val) <= 5e-6 * abs(val) * (1 + 1e-9) or abs(read - val) <= 1e-6 * (1 + 1e-9)
